@@ -42,6 +42,10 @@ func vTable(variant int) map[string]Route {
 		}
 	case 4:
 		t["b"] = Route{Type: "u", Name: "x", Table: "B"} // request "b" now lives in a database of another type
+	case 5:
+		t["b"] = Route{Type: "t", Name: "x", Table: "Bx"} // request "b": its table is EXTENDED (old table is a prefix of the new one)
+	case 6:
+		t["a"] = Route{Type: "t", Name: "x", Table: ""} // request "a": its table is SHORTENED to a prefix of the old one
 	}
 	return t
 }
@@ -77,6 +81,39 @@ func VerifH_C26_route() {
 	sym.Assert(p1.RouteOf(req) == r1, "routing the same request twice gives the same route")
 	sym.Assert(r1.Type == "t", "the route names a known database type")
 	sym.Reach("route")
+}
+
+// VerifH_C26_reopen: re-opening after a restart.  A request (0-3 bytes) is opened and written through producer 1;
+// producer 2 over the same databases has one of the routing variants (unchanged, other database, other table,
+// other type, table extended / shortened to a prefix-related one).  With an unchanged route the re-open
+// succeeds and finds the data; with another table in the same database it is refused; a move to another database
+// is Verify's business.
+func VerifH_C26_reopen() {
+	fs := vstore.NewFS()
+	p1 := vProducerOver(fs, 0)
+	q := vReq("q")
+	db1, err := p1.OpenDB(q)
+	sym.Assert(err == nil, "the first request of a fresh producer is accepted")
+	sym.Assert(db1.Put([]byte("k"), []byte{7}) == nil, "Put")
+	variant := sym.Choice("variant", 7)
+	p2 := vProducerOver(fs, variant)
+	r1, r2 := p1.RouteOf(q), p2.RouteOf(q)
+	db2, err2 := p2.OpenDB(q)
+	switch {
+	case r1 == r2:
+		sym.Assert(err2 == nil, "re-opening after a restart yields the same database and table")
+		got, _ := db2.Get([]byte("k"))
+		sym.Assert(len(got) == 1 && got[0] == 7, "a re-opened request finds its data")
+		sym.Reach("reopened")
+	case r1.Type == r2.Type && r1.Name == r2.Name:
+		// same database, another table: the database's own records know the request
+		sym.Assert(err2 != nil, "a recorded request is not silently re-assigned to another table of its database")
+		sym.Reach("refused-reassignment")
+	default:
+		// moved to another database: OpenDB cannot know (that is what Verify is for, see VerifH_C26_verify)
+		sym.Reach("moved-elsewhere")
+	}
+	sym.Reach("reopen")
 }
 
 // VerifH_C26_history: the route of a request does not depend on which requests the producer routed before:
